@@ -321,3 +321,43 @@ class DerivationMonitor:
         if not self.ok:
             return False
         return self.g.END in self.S
+
+
+def grammar_reading(g: Grammar, kinds):
+    """Run the reference automaton over a sequence of primary line kinds (no EOF included).
+    -> (accepted, [kind each line was read as], events) ; look-ahead outcomes are computed
+    from the sequence itself (skip Empty/Comment/TagLine until the target or anything else)."""
+    q = g.q0
+    read_as = []
+    events = [("start", g.order[0])]
+    seq = list(kinds) + ["EOF"]
+    for i, kind in enumerate(seq):
+        la = {}
+        for target in ("ScenarioLine", "ExamplesLine"):
+            j = i + 1
+            res = False
+            while j < len(seq):
+                if seq[j] == target:
+                    res = True
+                    break
+                if seq[j] not in ("Empty", "Comment", "TagLine"):
+                    break
+                j += 1
+            la[target] = res
+        step = g.ref_step(q, kind, la)
+        if step is None:
+            return False, read_as, events
+        ev, q2 = step
+        # which kind was consumed: explicit edge, free text, or ignored self loop
+        cands = [c for c in g.reach(q) if c[1] == q2]
+        if q2 == q and not any(c[0] == kind for c in g.reach(q)) and kind in g.ignored:
+            read_as.append(kind)
+        elif any(c[0] == kind for c in cands):
+            read_as.append(kind)
+        else:
+            read_as.append("Other")
+        for e in ev:
+            events.append(e if e != ("build",) else ("build", read_as[-1]))
+        q = q2
+    events.append(("end", g.order[0]))
+    return q == g.ACC, read_as[:-1], events
